@@ -131,21 +131,60 @@ pub unsafe extern "C" fn harness_laws(p: *const u8) -> u32 {
     if !a.can_fit_into(&a) { r |= 1; }
     if fit && !cast { r |= 2; }
     if weak && !fit { r |= 4; }
-    if m1 != m2 { r |= 8; }
+    if m1 != m2 {
+        r |= 8;
+        // cause class of an asymmetry (bits 12..15), used only to key known findings by role
+        let jumpy = |t: &Ty| matches!(t, Ty::AlwaysJumps | Ty::Unknown);
+        r |= if jumpy(&a) && jumpy(&c) { 1 << 12 } else { 2 << 12 };
+    }
     if let Some(m) = &m1 {
-        if !(a.can_fit_into(m) && c.can_fit_into(m)) { r |= 16; }
+        if !(a.can_fit_into(m) && c.can_fit_into(m)) {
+            r |= 16;
+            // cause class of a max that one operand does not fit into (bits 8..11)
+            let cause = if matches!(m, Ty::Distinct { .. }) && (*m == a || *m == c) { 1 }
+                else if *m == Ty::Type { 2 }
+                else if matches!(m, Ty::Optional { .. }) { 3 }
+                else if matches!(m, Ty::ErrorUnion { .. }) { 4 }
+                else { 5 };
+            r |= cause << 8;
+        }
     }
     // C13: nominal types are not implicitly accepted where a different nominal type, or their own underlying
     // type, is expected
     if let Some(ua) = is_nominal(&a) {
         let other_nominal = matches!(is_nominal(&c), Some(uc) if uc != ua);
         let underlying = match &a { Ty::Distinct { sub_ty, .. } => **sub_ty == c, _ => false };
-        if (other_nominal || underlying) && fit { r |= 32; }
+        // `any` (and the checker's `unknown`) accept every value by definition
+        let accepts_all = matches!(c, Ty::Any | Ty::Unknown);
+        if (other_nominal || underlying) && fit && !accepts_all {
+            r |= 32;
+            // cause class (bits 16..19): the expected type is a distinct wrapper of `any`
+            r |= if matches!(c.absolute_ty(), Ty::Any) { 1 << 16 } else { 2 << 16 };
+        }
         if let Ty::Distinct { sub_ty, .. } = &a {
             if **sub_ty == c && !(cast && c.can_cast_to(&a)) { r |= 64; }
         }
     }
     r
+}
+
+/// prints what the relations say about the two described types (triage aid for replays; never run symbolically)
+#[no_mangle]
+pub unsafe extern "C" fn harness_laws_explain(p: *const u8) -> u32 {
+    let b = slice::from_raw_parts(p, 2 * DESC);
+    let (a, c) = match (build(&b[..DESC]), build(&b[DESC..])) {
+        (Some(a), Some(c)) => (a, c),
+        _ => { println!("outside the universe"); return 0; }
+    };
+    println!("A = {:?}", a);
+    println!("B = {:?}", c);
+    println!("fit(A,B) = {}  cast(A,B) = {}  weak(A,B) = {}", a.can_fit_into(&c), a.can_cast_to(&c), a.is_weak_replaceable_by(&c));
+    println!("fit(B,A) = {}  cast(B,A) = {}  weak(B,A) = {}", c.can_fit_into(&a), c.can_cast_to(&a), c.is_weak_replaceable_by(&a));
+    let m1 = a.max(&c);
+    println!("max(A,B) = {:?}", m1);
+    println!("max(B,A) = {:?}", c.max(&a));
+    if let Some(m) = &m1 { println!("fit(A,M) = {}  fit(B,M) = {}", a.can_fit_into(m), c.can_fit_into(m)); }
+    0
 }
 
 /// variants of one enum / two enums with identical payloads: max + fit laws through ENUM_MAP, and nominality
